@@ -192,8 +192,12 @@ def _is_position_index(sl: ast.AST) -> bool:
 def check_function(index: RepoIndex, rep, rule: str, f: Func, ev: Evaluator,
                    qual: Optional[str] = None) -> int:
     """returns the number of sinks analysed in f"""
-    w = walk_function(f.node)
-    gn = grid_names_of(f.node, w)
+    from .inline import inlined_function
+    node = f.node
+    if qual is None and f.cls is None:
+        node, _ = inlined_function(index, f)
+    w = walk_function(node)
+    gn = grid_names_of(node, w)
     pc = PosClassifier(f, w, gn)
     fname = qual or f.short
     sinks = 0
@@ -238,7 +242,8 @@ def check_function(index: RepoIndex, rep, rule: str, f: Func, ev: Evaluator,
                 continue
             # needs a dominating contains guard on the same position
             if m is None:
-                m = FnModel(index, f, [], ev)
+                m = FnModel(index, f, [], ev) if (qual is None and f.cls is None) else \
+                    _PlainModel(index, f, ev)
             pos_canon = m.walk.expand(pexpr)
             if isinstance(pos_canon, ast.Tuple) and len(pos_canon.elts) == 2:
                 ys = [src(x) for x in pos_canon.elts]
@@ -256,6 +261,19 @@ def check_function(index: RepoIndex, rep, rule: str, f: Func, ev: Evaluator,
                       src(e.stmt) if e.stmt is not None else src(e.node), reason,
                       f'{src(base)}[{src(pexpr)}] guarded by contains')
     return sinks
+
+
+class _PlainModel(FnModel):
+    """FnModel without helper inlining (nested functions, methods)"""
+
+    def __init__(self, index, func, ev):
+        import gvstatic.inline as il
+        saved = il.inlined_function
+        il.inlined_function = lambda index, func, exclude=None: (func.node, [])
+        try:
+            super().__init__(index, func, [], ev)
+        finally:
+            il.inlined_function = saved
 
 
 def dominated(ev: Evaluator, guard, pkey: str) -> Tuple[bool, str]:
@@ -283,9 +301,23 @@ def dominated(ev: Evaluator, guard, pkey: str) -> Tuple[bool, str]:
 def run_bounds(index: RepoIndex, rep, rule: str, modules=None) -> int:
     ev = Evaluator(index, always_inside=())
     total = 0
+    from .inline import inlined_function
     for rel in modules or MODULES:
         mod = index.module(rel)
+        # helpers that are analysed in the context of their callers (inlined there)
+        inlined = set()
         for f in mod.functions.values():
+            inlined |= set(inlined_function(index, f)[1])
+        value_refs = set()
+        for n in ast.walk(mod.tree):
+            if isinstance(n, ast.Call):
+                for a in list(n.args) + [k.value for k in n.keywords]:
+                    if isinstance(a, ast.Name):
+                        value_refs.add(a.id)
+        for f in mod.functions.values():
+            if f.name in inlined and f.name not in value_refs:
+                rep.note(f'{rel}:{f.name} analysed inlined into its callers')
+                continue
             total += check_function(index, rep, rule, f, ev)
             w = walk_function(f.node)
             for name, node in w.local_funcs.items():
